@@ -257,6 +257,119 @@ def textures(tree: ast.Module) -> dict[str, Any]:
             'codec_same': wcodec == wcodec2 == rcodec, 'codec': [list(wcodec), list(rcodec)]}
 
 
+# ------------------------------------------------------------------------------------------------ entity lump text
+def _mode(e: ast.AST, where: str) -> str:
+    """How an interpolated field is put between the quotes."""
+    if isinstance(e, ast.Call) and ast.unparse(e.func) == 'escape_text' and e.args:
+        ml = False
+        if len(e.args) == 2:
+            if not isinstance(e.args[1], ast.Constant):
+                raise TranslateError(f'{where}: escape_text multiline argument not constant')
+            ml = bool(e.args[1].value)
+        for k in e.keywords:
+            if k.arg == 'multiline' and isinstance(k.value, ast.Constant):
+                ml = bool(k.value.value)
+            else:
+                raise TranslateError(f'{where}: escape_text keyword not recognised')
+        return 'EscML' if ml else 'EscS'
+    if isinstance(e, (ast.Name, ast.Attribute)) or (isinstance(e, ast.Call) and not e.args and isinstance(e.func, ast.Attribute)):
+        return 'Raw'
+    raise TranslateError(f'{where}: interpolated field not recognised: {ast.unparse(e)[:60]}')
+
+
+def _template(js: ast.AST, where: str) -> list:
+    """f-string -> list of literal strings and ('f', expr, has_format_spec)."""
+    if not isinstance(js, ast.JoinedStr):
+        raise TranslateError(f'{where}: not an f-string')
+    out: list = []
+    for v in js.values:
+        if isinstance(v, ast.Constant):
+            if out and isinstance(out[-1], str):
+                out[-1] += v.value
+            else:
+                out.append(v.value)
+        elif isinstance(v, ast.FormattedValue) and v.conversion == -1:
+            out.append(('f', v.value, v.format_spec is not None))
+        else:
+            raise TranslateError(f'{where}: f-string part not recognised')
+    return out
+
+
+def ent_text(tree: ast.Module) -> dict[str, Any]:
+    fw = _fn(tree, 'write_ent_data')
+    kv_loop = None
+    for n in ast.walk(fw):
+        if isinstance(n, ast.For) and ast.unparse(n.iter).endswith('.items()') and isinstance(n.target, ast.Tuple) and len(n.target.elts) == 2:
+            kv_loop = n
+    if kv_loop is None or len(kv_loop.body) != 1:
+        raise TranslateError('write_ent_data: `for key, value in ent.items():` with one statement not found')
+    kname, vname = (ast.unparse(e) for e in kv_loop.target.elts)
+    st = kv_loop.body[0]
+    call = st.value if isinstance(st, ast.Expr) else None
+    if not (isinstance(call, ast.Call) and ast.unparse(call.func) == 'out.write' and len(call.args) == 1
+            and isinstance(call.args[0], ast.Call) and isinstance(call.args[0].func, ast.Attribute) and call.args[0].func.attr == 'encode'):
+        raise TranslateError('write_ent_data: keyvalue line is not out.write(f"...".encode(...))')
+    t = _template(call.args[0].func.value, 'write_ent_data')
+    if len(t) != 5 or t[0] != '"' or t[2] != '" "' or t[4] != '"\n' or isinstance(t[1], str) or isinstance(t[3], str):
+        raise TranslateError('write_ent_data: keyvalue line is not `"<key>" "<value>"\\n`')
+
+    def names(e: ast.AST) -> set[str]:
+        return {x.id for x in ast.walk(e) if isinstance(x, ast.Name)}
+    if kname not in names(t[1][1]) or vname not in names(t[3][1]):
+        raise TranslateError('write_ent_data: key/value are not interpolated in this order')
+    km, vm = _mode(t[1][1], 'write_ent_data'), _mode(t[3][1], 'write_ent_data')
+    # framing: braces, newline, final NUL are compared byte by byte by the correspondence of checks/c11.py
+    vtree = ast.parse(src_text('vmf.py'))
+    ocls = next((n for n in vtree.body if isinstance(n, ast.ClassDef) and n.name == 'Output'), None)
+    if ocls is None:
+        raise TranslateError('vmf.py: class Output not found')
+    ak = next((n for n in ocls.body if isinstance(n, ast.FunctionDef) and n.name == 'as_keyvalue'), None)
+    if ak is None:
+        raise TranslateError('Output.as_keyvalue not found')
+    ret = [n for n in ast.walk(ak) if isinstance(n, ast.Return)]
+    seps = [n for n in ak.body if isinstance(n, ast.Assign) and ast.unparse(n.targets[0]) == 'sep']
+    if len(ret) != 1 or len(seps) != 1 or ast.unparse(seps[0].value) != "',' if self.comma_sep else self.SEP":
+        raise TranslateError('Output.as_keyvalue: `sep = "," if self.comma_sep else self.SEP` / single return not found')
+    sep_const = None
+    for n in ocls.body:
+        if isinstance(n, (ast.Assign, ast.AnnAssign)):
+            tg = n.targets[0] if isinstance(n, ast.Assign) else n.target
+            if ast.unparse(tg) == 'SEP' and n.value is not None:
+                v = n.value
+                if isinstance(v, ast.Name):
+                    alias = v.id
+                    for m in vtree.body:
+                        if isinstance(m, (ast.Assign, ast.AnnAssign)):
+                            tg2 = m.targets[0] if isinstance(m, ast.Assign) else m.target
+                            if ast.unparse(tg2) == alias and m.value is not None:
+                                v = m.value
+                if isinstance(v, ast.Call) and ast.unparse(v.func) == 'chr' and isinstance(v.args[0], ast.Constant):
+                    sep_const = v.args[0].value
+                elif isinstance(v, ast.Constant) and isinstance(v.value, str) and len(v.value) == 1:
+                    sep_const = ord(v.value)
+    if sep_const is None:
+        raise TranslateError('Output.SEP: separator constant not found')
+    t = _template(ret[0].value, 'Output.as_keyvalue')
+    # expected: '"' name '" "' target sep input sep params sep delay sep times '"\n'
+    shape = ['"', 'F', '" "', 'F', 'S', 'F', 'S', 'F', 'S', 'F', 'S', 'F', '"\n']
+    got = []
+    fields = []
+    for part in t:
+        if isinstance(part, str):
+            got.append(part)
+        elif ast.unparse(part[1]) == 'sep':
+            got.append('S')
+        else:
+            got.append('F')
+            fields.append(part)
+    if got != shape:
+        raise TranslateError(f'Output.as_keyvalue: line shape not recognised: {got}')
+    modes = []
+    for _, e, spec in fields:
+        modes.append('Raw' if spec else _mode(e, 'Output.as_keyvalue'))
+    return {'key_mode': km, 'value_mode': vm, 'out_name_mode': modes[0], 'out_field_modes': modes[1:], 'output_sep': sep_const}
+
+
 def nl(xs: list[int]) -> str:
     return '[' + '; '.join(str(x) for x in xs) + ']%N'
 
@@ -268,9 +381,10 @@ def translate() -> tuple[str, dict]:
     w_expr, w_guard, w_src = vis_writer(tree)
     tx = textures(tree)
     rec_text, rec_side = c11_records.generate(tree)
+    et = ent_text(tree)
     L = ['(* GENERATED by translate/c11_glue.py + c11_records.py from src/srctools/bsp.py. Do not edit. *)',
          'From Coq Require Import List String NArith ZArith.',
-         'From SV Require Import Fmt.BspVisRow Fmt.BspTexStrings Fmt.BspRecords.',
+         'From SV Require Import Fmt.BspVisRow Fmt.BspTexStrings Fmt.BspRecords Fmt.BspEntLump.',
          'Import ListNotations.', 'Open Scope string_scope.',
          f'(* runlength_decode: {r_src} *)',
          f'Definition vis_row_reader : rexp := {r_expr}.',
@@ -280,9 +394,12 @@ def translate() -> tuple[str, dict]:
          f'Definition vis_writer_checks_row_length : bool := {"true" if w_guard else "false"}.',
          f'Definition tex_cfg : texcfg := ({nl(tx["search_suffix"])}, {nl(tx["append_suffix"])}, {tx["maxlen"]}%nat, {tx["window"]}%nat).',
          f'Definition tex_codec_same : bool := {"true" if tx["codec_same"] else "false"}.',
+         f'Definition ent_cfg : entcfg := ({et["key_mode"]}, {et["value_mode"]}, {et["out_name_mode"]}, [{"; ".join(et["out_field_modes"])}]).',
+         f'Definition ent_output_sep : N := {et["output_sep"]}%N.',
          rec_text, '']
     side = {'vis_row_reader': r_src, 'vis_row_writer': w_src, 'vis_reader_passes_cluster_count': r_passes,
             'vis_writer_checks_row_length': w_guard, 'textures': tx}
+    side['ent_text'] = et
     side.update(rec_side)
     return '\n'.join(L), side
 
